@@ -226,3 +226,25 @@ Example C14_example_concurrent :
   c_wire st = [(0%nat, (0, AddROSpec 7)); (1%nat, (0, AddROSpec 9))] /\
   l_results (c_lanes st 0) = [false] /\ l_results (c_lanes st 1) = [false].
 Proof. exact private_example. Qed.
+
+(* ------------------------------------------------------------------ the read timeout as applied to the connection
+   "... a periodic KeepAliveSpec of 30 s, half of the 60 s read timeout the service applies to the connection":
+   once the read side has armed its deadline at t0 and the reader stays silent, the connection's read deadline is
+   t0 + 2 x the enforced KeepAlive interval WHATEVER the client writes meanwhile (commands, polling,
+   KeepAliveAcks).  checks/c14.py observes exactly this on the running llrp.Client (a recording net.Conn: no call
+   made while Read is parked moves the read deadline; armed value = 60 s; scaled run: a silent reader is dropped
+   although the client keeps writing).  False of a write loop that arms both deadlines (second theorem). *)
+Theorem C14_silent_reader_bounded_whatever_is_written : forall d t0 writes,
+  dl_read (silent_reader WriteOnly d t0 writes) = t0 + 2 * keep_alive_interval_ms.
+Proof. exact silent_reader_bounded. Qed.
+Print Assumptions C14_silent_reader_bounded_whatever_is_written.
+
+Theorem C14_write_arming_both_refuted :
+  dl_read (silent_reader Both (mkDL 0 0) 0 [50000; 100000; 150000]) = 210000 /\
+  2 * keep_alive_interval_ms = 60000.
+Proof. exact silent_reader_both_refuted. Qed.
+Print Assumptions C14_write_arming_both_refuted.
+
+Example C14_example_silent_reader :
+  dl_read (silent_reader WriteOnly (mkDL 0 0) 1000 [20000; 40000; 55000]) = 61000.
+Proof. vm_compute. reflexivity. Qed.
